@@ -37,7 +37,7 @@ def row2fts(row, type_=None, seqid=None):
             if i == 0 and row[0] != '|' and j == len(row):
                 assert row[-1] != '|'
                 defect = Defect.MISS_LEFT | Defect.MISS_RIGHT
-            if i == 0 and row[0] != '|':
+            elif i == 0 and row[0] != '|':
                 defect = Defect.MISS_LEFT
             elif j == len(row):
                 assert row[-1] != '|'
